@@ -316,6 +316,15 @@ def prove(hyps, goal, timeout_ms=20000, extra_axioms=(), free_ufs_ok=False, ufs=
             ok = numeric_check(hyps + list(extra_axioms), goal, env, ufs)
             if ok is True:
                 return Result('refuted', model={'env': env}, backend='z3+mpmath', seconds=dt)
+        rep = _repair(z3, s, m, em, universe, timeout_ms)
+        if rep is not None:
+            env2 = _model_env(z3, rep, em, allv)
+            mm = {'env': env2}
+            if has_uf:
+                mm['uf_points'] = _uf_points(z3, rep, em, universe)
+            return Result('refuted', model=mm, backend='z3+repair', seconds=time.time() - t0,
+                          detail='model re-solved with the transcendental applications pinned to 1e-25 enclosures of '
+                                 'their true values')
         return Result('unknown', model={'env': env}, backend='z3', seconds=dt,
                       detail='sat under abstraction of transcendental functions; model not confirmed numerically')
     # unknown -> cvc5
@@ -325,6 +334,79 @@ def prove(hyps, goal, timeout_ms=20000, extra_axioms=(), free_ufs_ok=False, ufs=
         if r2 == 'unsat':
             return Result('proved', backend='cvc5', seconds=dt, detail='%d ground axioms' % len(axioms))
     return Result('unknown', backend='z3', seconds=time.time() - t0, detail=str(s.reason_unknown()))
+
+
+def _repair(z3, solver, m, em, universe, timeout_ms):
+    """model repair: fix the argument of every transcendental application to its value in the model, replace the
+    abstract value of the application by a tight enclosure of the TRUE value there, and re-solve. A model of the
+    strengthened query is a genuine counterexample (up to the 1e-25 enclosures)."""
+    import mpmath
+    apps = [t for t in universe if t.op in TRANSC]
+    if not apps or len(apps) > 60:
+        return None
+    old = mpmath.mp.dps
+    mpmath.mp.dps = 40
+    try:
+        solver.push()
+        for t in apps:
+            vals = []
+            for a in t.args:
+                v = m.eval(em(a), model_completion=True)
+                if z3.is_algebraic_value(v):
+                    v = v.approx(30)
+                if not (z3.is_rational_value(v) or z3.is_int_value(v)):
+                    solver.pop()
+                    return None
+                vals.append(Fraction(v.as_long()) if z3.is_int_value(v) else Fraction(v.as_fraction()))
+            x = [mpmath.mpf(v.numerator) / v.denominator for v in vals]
+            try:
+                if t.op == 'exp':
+                    y = mpmath.exp(x[0])
+                elif t.op == 'log':
+                    if x[0] <= 0:
+                        solver.pop()
+                        return None
+                    y = mpmath.log(x[0])
+                elif t.op == 'sqrt':
+                    if x[0] < 0:
+                        solver.pop()
+                        return None
+                    y = mpmath.sqrt(x[0])
+                elif t.op == 'pow':
+                    if x[0] <= 0 and not (vals[1].denominator == 1 and (x[0] != 0 or vals[1] > 0)):
+                        solver.pop()
+                        return None
+                    y = mpmath.power(x[0], x[1])
+                elif t.op == 'ndtr':
+                    y = mpmath.ncdf(x[0])
+                else:
+                    solver.pop()
+                    return None
+            except Exception:
+                solver.pop()
+                return None
+            if not mpmath.isfinite(y) or abs(y) > mpmath.mpf(10) ** 60:
+                solver.pop()
+                return None
+            eps = abs(y) * mpmath.mpf(10) ** -25 + mpmath.mpf(10) ** -40
+            lo = Fraction(str(mpmath.nstr(y - eps, 38, strip_zeros=False)))
+            hi = Fraction(str(mpmath.nstr(y + eps, 38, strip_zeros=False)))
+            for a, v in zip(t.args, vals):
+                solver.add(em.real(em(a)) == z3.RealVal(str(v)))
+            solver.add(em(t) >= z3.RealVal(str(lo)), em(t) <= z3.RealVal(str(hi)))
+        solver.set('timeout', int(min(timeout_ms, 10000)))
+        r = solver.check()
+        out = solver.model() if r == z3.sat else None
+        solver.pop()
+        return out
+    except Exception:
+        try:
+            solver.pop()
+        except Exception:
+            pass
+        return None
+    finally:
+        mpmath.mp.dps = old
 
 
 def _uf_points(z3, m, em, universe):
